@@ -422,8 +422,12 @@ def _conclude(mod, prop: str, tier: str, seed: int, obs: List[Ob], results: List
                 twins_refuted += 1
             elif st in ("confirmed", "vacuous"):
                 harness_errors.append("vacuity twin %s was %s: the harness never reaches its assertion" % (ob.name, st))
+            elif st == "unknown":
+                # the twin neither reached nor refuted reachability within its budget: reported, not fatal (a timeout is
+                # never a verdict, in either direction)
+                inconclusive.append(ob.name)
             else:
-                harness_errors.append("vacuity twin %s inconclusive (%s): %s" % (ob.name, st, r["detail"][:200]))
+                harness_errors.append("vacuity twin %s failed (%s): %s" % (ob.name, st, r["detail"][:200]))
             continue
         if st == "error":
             harness_errors.append("%s: %s" % (ob.name, r["detail"][-2500:]))
